@@ -5,6 +5,7 @@ embody.  The proved part is Props/C15.v (modes are views of the two render resul
 translated each run)."""
 import glob
 import os
+import json
 import random
 import re
 import ruamel.yaml
@@ -33,6 +34,14 @@ def descriptions(tier, seed):
         if tier != "quick":
             out.append(families.mesh(rng, 3, 2, algo, rng.random() < 0.5, sides=("S", "E")))
     out.append(families.tree(rng, (1, 2), "ID", False, leaves_per_router=2))
+    # descriptions that spell out derived routing fields (the generator derives them anyway): every mode must embody
+    # the same, derived, values
+    for algo in ("XY", "ID"):
+        d, t = families.mesh(rng, 2, 2, algo, False, sides=("W",))
+        if d is not None:
+            d = json.loads(json.dumps(d))
+            d["routing"].update({"num_x_bits": 4, "num_y_bits": 3, "addr_offset_bits": 20, "num_id_bits": 6})
+            out.append((d, dict(t, topo="explicit-routing-fields")))
     # names that extend each other (query lookups by name)
     d, t = families.star(rng, 3, "ID", False, roles=["ms", "s", "m"], shapes=[4, 2, None])
     ren = {"epa": "spm", "epb": "spm_narrow", "epc": "dma"}
